@@ -410,12 +410,24 @@ def judge(chk, mode, case, res, stats, found, via=""):
         return False
     if case["hostile"]:
         stats["rejected"] += 1
-    elif case["plain"] and not case["failed"] and not via:
+        return False
+    # ---- inputs the specification calls benign -----------------------------------------------------------------------
+    if not case["failed"] and raised is not None and raised.startswith("other:"):
+        # the specification carries the input out; the real code raises something that is not even a staging error
+        stats["unexpected_exception"] = stats.get("unexpected_exception", 0) + 1
+        key = "%s:unexpected-exception:%s" % (op, raised[6:])
+        if key not in found:
+            found[key] = ("%s of the benign input %s (the specification carries it out completely) raises %s instead of staging it or "
+                          "rejecting it with a staging/packaging error" % (op, text, raised[6:]), rp)
+        return False
+    if case["plain"] and not case["failed"] and not via:
         stats["plain"] += 1
         if raised is not None or tree != expected_tree(mode, case):
             stats["plain_mismatch"] += 1
-            stats.setdefault("plain_mismatch_example", "%s -> %s, created %s, specification %s" % (
-                text, raised, sorted(tree.items()), sorted(expected_tree(mode, case).items())))
+            key = "%s:plain-benign-input-not-carried-out" % op
+            if key not in found:
+                found[key] = ("%s of the plain input %s (no `..`, no absolute name, no link) -> %s, created %s; the specification creates %s" % (
+                    op, text, raised or "no error", sorted(tree.items()), sorted(expected_tree(mode, case).items())), rp)
     return False
 
 
@@ -439,15 +451,12 @@ def execute(chk, mode, cases, sb, env, found, stagein=False):
         if stats["n"] % 997 == 1:
             chk.sample({"mode": mode, "input": show(mode, case["inp"]), "hostile": case["hostile"], "real_outcome": res[0] or "carried out",
                         "outside_modified": bool(res[1])}, limit=8)
-    if stats["plain"] and stats["plain_mismatch"] * 5 > stats["plain"]:
-        raise MachineryError("%s: %d of %d plain benign inputs are not carried out as specified (vacuous run?): %s" % (
-            mode, stats["plain_mismatch"], stats["plain"], stats.get("plain_mismatch_example")))
     return stats
 
 
 # =====================================================================================================================
 BASE = {"Mode": '"archive"', "Segs": '{"a", "b", "..", ""}', "MaxLen": "2", "Kinds": '{"file", "dir", "sym", "hard"}',
-        "LinkNameLen": "1", "LinkSegs": '{"a", "..", ""}', "LinkMaxLen": "2", "MaxMembers": "2", "Srcs": '{"p"}', "Pattern": '"any"',
+        "LinkNameLen": "1", "LinkSegs": '{"a", "..", ""}', "LinkMaxLen": "2", "MaxMembers": "2", "Srcs": '{"p"}', "Pattern": '"any"', "LastKinds": '{"file"}',
         "Guard": '"resolve"', "Emit": "FALSE"}
 
 
@@ -462,7 +471,12 @@ INV = "INVARIANT TypeOK\nINVARIANT Confined\nINVARIANT NoOverRejection\nINVARIAN
 
 def families(thorough):
     """(mode, label, constants) of the input families that are emitted and executed"""
+    chain = dict(MaxMembers="4", Segs='{"a", "h"}', MaxLen="2", Kinds='{"file", "hard"}', LinkNameLen="1",
+                 LinkSegs='{"b", ".", ".."}', LinkMaxLen="2", Pattern='"chain"', LastKinds='{"file"}')
     fam = [("archive", "two", dict(MaxMembers="2")),
+           # two chained symbolic links (b -> ., a -> b/..) that look confined one by one, then members through them / re-using
+           # a name; quick executes every hostile input of the family and every 10th of the others, thorough all of them
+           ("archive", "chain" if thorough else "chain-sampled", chain),
            ("manifest", "two", dict(Mode='"manifest"', MaxMembers="2", Segs='{"a", "c", "..", ""}',
                                     Srcs='{"p"}' if not thorough else '{"p", "q"}')),
            ("stage", "two", dict(Mode='"stage"', MaxMembers="2"))]
@@ -538,6 +552,8 @@ def _run(chk, thorough, gen, only):
                 raise MachineryError("Confine.tla emission (%s/%s) failed:\n%s" % (mode, label, r["out"][-1500:]))
             chk.add_tlc(r)
             cases = r["cases"]
+            if label == "chain-sampled":
+                cases = [x for j, x in enumerate(cases) if x["hostile"] or j % 10 == 0]
             if len(cases) < 50 or not any(x["hostile"] for x in cases) or all(x["hostile"] for x in cases):
                 raise MachineryError("emission %s/%s: %d cases, degenerate classification" % (mode, label, len(cases)))
         st = execute(chk, mode, cases, sb, env, found, stagein=(mode == "stage"))
@@ -554,7 +570,9 @@ def _run(chk, thorough, gen, only):
     chk.cov["outcomes"] = totals
     chk.cov["rule"] = ("every input of the families enumerated by TLC: archives of <=2 members (file/dir/symlink/hardlink; names of <=2 "
                        "segments over {a, b, .., absolute}; link targets of <=2 segments over {a, .., absolute}), archives of 3 members over "
-                       "a reduced alphabet, manifests of <=2 entries (copy/link), staging sequences of <=2 operations (also through "
+                       "a reduced alphabet, 3- and 4-member archives starting with two chained symbolic links (b -> ., a -> b/..) that pass "
+                       "any member-by-member check followed by file / hard-link members through them or re-using their names (quick: all "
+                       "hostile ones + every 10th other), manifests of <=2 entries (copy/link), staging sequences of <=2 operations (also through "
                        "Job.stageIn of a real experiment); thorough adds 3-segment names, 3-member archives with hard links, 3-operation "
                        "sequences")
     chk.cov["exhaustive"] = True
